@@ -13,6 +13,7 @@ LEVEL = {
  "C05": ("proof", "window inequality of isFinalized, strictly positive period at validation, final outputs never deleted, period never rewritten by role/config updates, last-finalized query names the highest final index (descending store walk cut with an invariant)", "DESIGN.md §7 C05"),
  "C06": ("proof", "three-way contract of FinalizeTokenDeposit on the sequence gate: stale => NOOP with no state change and no event, ahead => error, equal => SUCCESS and next+1; proved for every stored state, so every schedule is covered", "DESIGN.md §7 C06"),
  "C07": ("proof", "success contract (no error, no panic) of FinalizeTokenDeposit at the expected sequence under demonic failure/panic of mint, transfer, tx decoding, ante chain and routed hook messages; credit-or-refund outcome; failed deposit/hook proved to leave bank state untouched via branched store handles", "DESIGN.md §7 C07"),
+ "C08": ("proof", "solvency equation escrow = L2 supply + in-flight deposits + in-flight withdrawals proved preserved by every bridge transition as SMT lemmas over the verified handler contract clauses (the lemma file names each clause it transcribes and the check verifies the clause still exists verbatim); the four handlers are re-verified in the same run; relayer faithfulness is an explicit assumption", "DESIGN.md §7 C08"),
  "C09": ("proof", "InitiateTokenWithdrawal burns exactly the stated amount from the signer, takes the next L2 sequence and announces the base denom of the write-once denom mapping; FinalizeTokenDeposit writes the mapping only when absent", "DESIGN.md §7 C09"),
  "C10": ("proof", "InitiateTokenDeposit: bridge must exist, returned sequence is the stored next (1 if absent) and is bumped by one, one event whose fields equal the request and the moved coins, token pair written once with the derived L2 denom; CreateBridge pre-records nothing under the new id", "DESIGN.md §7 C10"),
  "C11": ("proof", "ProposeOutput only at the next index with a higher L2 block number, recording block height/time; DeleteOutput removes exactly the non-final suffix [i,next) and rolls the counter back to i (quantified loop invariant, no bound)", "DESIGN.md §7 C11"),
@@ -21,6 +22,9 @@ LEVEL = {
  "C14": ("proof", "plan registration rejects malformed plans without side effects; at the planned height EndBlocker leaves exactly the plan's validator bonded in L2 state and replaces the executor list; proved through the contracts of ChangeExecutor (store walk with invariant) and the end-block update", "DESIGN.md §7 C14"),
  "C19": ("proof", "channel-permission hooks: every admin cell that changes was fresh (next send sequence 1) and unowned, or belongs to a listed channel whose bridge's challenger changes; unparsable metadata touches nothing; hook failure fails the handler; loops over listed channels cut with invariants", "DESIGN.md §7 C19"),
  "C20": ("proof", "redundant-relay filter proved with a semantic loop invariant linking the stale/fresh counters to the L2 sequence actually consumed; system and free lane match conditions; fee checker proved over assumed contracts of the two coin-arithmetic helpers (stated in the evidence)", "DESIGN.md §7 C20"),
+ "C15": ("proof", "OPinit glue of the oracle path: executor + oracle-enabled gate; update height not older than the validator snapshot; vote extensions validated for (L1 chain id, height-1, round, extension) with every counted commit vote's signature checked and a 2/3+1 quorum (loop invariant with a definitional partial-sum function); per-pair timestamps strictly increase; snapshot replaced only by a higher height from the configured client. The stake-weighted median of connect is assumed (A-MEDIAN)", "DESIGN.md §7 C15"),
+ "C16": ("proof", "per genesis field: export lists exactly the stored entries of every collection (both inclusions; nested per-bridge lists via nested store-walk invariants) and the L2 import writes exactly the listed entries and replays the last powers; the round-trip composition itself is not discharged as a lemma (stated in the evidence)", "DESIGN.md §7 C16"),
+ "C18": ("other", "determinism discipline as obligations: D1 no nondeterministic callee / goroutine / select in any state-transition function (go/ssa scan with def-use check for time.Now), D2 the only Go-map range is proved to yield the sorted key list for every iteration order (uninterpreted order bijection) and any other map range fails the check, D4 no package-level writes. Byte-identity of two runs (2-safety) is not decided", "DESIGN.md §7 C18"),
  "C17": ("proof", "leaf, node, root-from-proofs, output root, L2 denom and bridge address are proved equal to spec functions transcribed from the published formats, and proved not to write into caller-visible byte memory (slice model with capacity)", "DESIGN.md §7 C17"),
 }
 checks = []
